@@ -173,7 +173,7 @@ func runC12(c *ctxT) {
 		seed := r.Seed*7919 + int64(c.Batch)*1000003 + int64(i)
 		hr := dRand(seed)
 		cfg := genPoolCfg(hr, false)
-		cfg.ERDMA, cfg.Trunk, cfg.Drift, cfg.V4 = false, false, false, true
+		cfg.ERDMA, cfg.Trunk, cfg.Drift, cfg.V4, cfg.StrayTrunk, cfg.StrayERDMA = false, false, false, true, false, false
 		for k := range cfg.Pre {
 			if cfg.Pre[k] < 1 {
 				cfg.Pre[k] = 1
